@@ -2,11 +2,15 @@
    the net package) and ships inputs together with the observed outputs. *)
 From Coq Require Import List ZArith Bool.
 Require Import MTX.Lib.IntWrap MTX.Lib.Utf8.
-Require Export MTX.Model.C08_Scalars.
+Require Export MTX.Model.C08_Scalars MTX.Model.C08_Net6 MTX.Model.C08_Schema MTX.Model.C08_ConfCodecs.
+Require Import MTXGen.C08_ConfSchema.
 Import ListNotations.
 Local Open Scope Z_scope.
 
-Inductive net_obs := NOErr | NOv6 | NOv4 (ip : list Z) (ones : Z).
+(* what IPNetwork.UnmarshalJSON stored: error, 4 bytes + CIDRMask(ones, 32), 16 bytes + CIDRMask(ones, 128) *)
+Inductive net_obs := NOErr | NOv6 (ip : list Z) (ones : Z) | NOv4 (ip : list Z) (ones : Z).
+
+Notation val := (value cval).
 
 Inductive case :=
 (* d -> marshalInternal -> text -> unmarshalInternal -> back *)
@@ -27,10 +31,26 @@ Inductive case :=
 (* IPv4 network -> MarshalJSON -> text -> UnmarshalJSON -> back *)
 | CNet (ip : list Z) (ones : Z) (text : list Z) (back : net_obs)
 | CNetParse (text : list Z) (r : net_obs)
-(* observed only (no model): IPv6 network and Credential round trips; whole configurations
+(* 16 address bytes -> net.IP.String -> text -> net.ParseIP -> 16 bytes back *)
+| CIp6 (ip : list Z) (text : list Z) (back : option (list Z))
+(* 16-byte network (ip, CIDRMask(ones, 128)) -> MarshalJSON -> text -> UnmarshalJSON -> back *)
+| CNet6 (ip : list Z) (ones : Z) (text : list Z) (back : net_obs)
+(* AlwaysAvailableTrack: valid = validate() passes; tree = json.Marshal parsed generically; back = UnmarshalJSON of it *)
+| CTrack (c : list Z) (r n : Z) (m : bool) (valid : bool) (tree : json) (back : option (list Z * Z * Z * bool))
+(* one field (index idx of schema 0 global / 1 path) of the real struct type holding value v: valid = v is a
+   value the decoders can hold (no nil slice, valid tracks/credentials, canonical networks);
+   key/sub = the member encoding/json wrote (None: omitted); back = jsonwrapper.Decode of those bytes;
+   creds = the strings of the tree that Credential.validate accepts (oracle values) *)
+| KField (schema idx : Z) (creds : list (list Z)) (valid : bool) (v : val) (key : list Z) (sub : option json)
+         (back : option val)
+(* a whole struct of the real type (schema 0 / 1) and everything encoding/json wrote for it *)
+| KEncAll (schema : Z) (vs : list val) (tree : json)
+(* a JSON tree (mutated output) decoded by jsonwrapper into the real type of schema 0..3:
+   r = None if rejected, else the fields (index, value) whose keys occur in the tree *)
+| KDecTree (schema : Z) (creds : list (list Z)) (tree : json) (r : option (list (Z * val)))
+(* observed only (oracle): Credential round trips; whole configurations
    (kind 0 global, 1 pathDefaults, 2 path): valid = the configuration passes Validate,
    equal = decode(encode c) applied as the API does gives a deep-equal configuration *)
-| CNet6 (text : list Z) (equal : bool)
 | CCred (text : list Z) (equal : bool)
 | CConf (kind : Z) (valid equal : bool).
 
@@ -44,8 +64,8 @@ Definition opt_pset_eqb (a b : option pset) : bool :=
   match a, b with Some x, Some y => pset_eqb x y | None, None => true | _, _ => false end.
 Definition net_eqb (a b : net_obs) : bool :=
   match a, b with
-  | NOErr, NOErr | NOv6, NOv6 => true
-  | NOv4 i1 o1, NOv4 i2 o2 => str_eqb i1 i2 && (o1 =? o2)
+  | NOErr, NOErr => true
+  | NOv4 i1 o1, NOv4 i2 o2 | NOv6 i1 o1, NOv6 i2 o2 => str_eqb i1 i2 && (o1 =? o2)
   | _, _ => false
   end.
 Fixpoint strs_eqb (a b : list (list Z)) : bool :=
@@ -63,11 +83,34 @@ Definition tb_matches (m : tb_result) (o : option Z) : bool :=
   | TBOut, _ => true
   | _, _ => false
   end.
-Definition net_matches (m : net_result) (o : net_obs) : bool :=
+Definition net_matches (m : net_full) (o : net_obs) : bool :=
   match m, o with
-  | NErr, NOErr => true
-  | NVal ip n, NOv4 ip' n' => str_eqb ip ip' && (n =? n')
-  | NV6, _ => true
+  | NFErr, NOErr => true
+  | NF4 ip n, NOv4 ip' n' | NF6 ip n, NOv6 ip' n' => str_eqb ip ip' && (n =? n')
+  | _, _ => false
+  end.
+Definition opt_str_eqb (a b : option (list Z)) : bool :=
+  match a, b with Some x, Some y => str_eqb x y | None, None => true | _, _ => false end.
+
+(* ---- schema-level comparison: the generated schema, the codec table with the shipped oracle values *)
+Definition schema_ty (k : Z) : ty codec :=
+  if k =? 0 then global_ty else if k =? 1 then path_ty else if k =? 2 then opt_global_ty else opt_path_ty.
+Definition schema_fields (k : Z) : list (list Z * bool * ty codec) :=
+  match schema_ty k with TStruct fs => fs | _ => [] end.
+Definition cred_in (creds : list (list Z)) (s : list Z) : bool := existsb (str_eqb s) creds.
+Definition m_enc := enc codec cval cenc.
+Definition m_dec (creds : list (list Z)) := dec codec cval (cdec (cred_in creds)) czero.
+Definition veqb := value_eqb cval cval_eqb.
+Definition opt_val_eqb (a b : option val) : bool :=
+  match a, b with Some x, Some y => veqb x y | None, None => true | _, _ => false end.
+Definition one_field (k idx : Z) : option (ty codec) :=
+  match nth_error (schema_fields k) (Z.to_nat idx) with Some f => Some (TStruct [f]) | None => None end.
+Definition member (key : list Z) (sub : option json) : json :=
+  JObj (match sub with Some j => [(key, j)] | None => [] end).
+Definition track_obs_eqb (a : option cval) (b : option (list Z * Z * Z * bool)) : bool :=
+  match a, b with
+  | Some (XTrack c r n m), Some (c', r', n', m') => str_eqb c c' && (r =? r') && (n =? n') && Bool.eqb m m'
+  | None, None => true
   | _, _ => false
   end.
 
@@ -85,9 +128,31 @@ Definition mismatch (c : case) : bool :=
   | CEnumParse e text r => negb (opt_eval_eqb (enum_unmarshal e text) r)
   | CTransports s texts back =>
       negb (strs_eqb (transports_marshal s) texts && opt_pset_eqb (transports_unmarshal texts (false, false, false)) back)
-  | CNet ip ones text back => negb (str_eqb (ipnet4_string ip ones) text && net_matches (ipnet_unmarshal text) back)
-  | CNetParse text r => negb (net_matches (ipnet_unmarshal text) r)
-  | CNet6 _ _ | CCred _ _ | CConf _ _ _ => false
+  | CNet ip ones text back => negb (str_eqb (ipnet4_string ip ones) text && net_matches (ipnet_unmarshal_full text) back)
+  | CNetParse text r => negb (net_matches (ipnet_unmarshal_full text) r)
+  | CIp6 ip text back => negb (str_eqb (ip16_string ip) text && opt_str_eqb (parse_ip16 text) back)
+  | CNet6 ip ones text back => negb (str_eqb (ipnet6_string ip ones) text && net_matches (ipnet_unmarshal_full text) back)
+  | CTrack c r n m valid tree back =>
+      negb (Bool.eqb (track_valid c r n) valid && json_eqb (track_enc c r n m) tree && track_obs_eqb (track_dec tree) back)
+  | KField k idx creds _ v key sub back =>
+      match one_field k idx with
+      | Some t =>
+          negb (json_eqb (m_enc t (VStruct [v])) (member key sub) &&
+                opt_val_eqb (m_dec creds t (member key sub)) (option_map (fun b => VStruct [b]) back))
+      | None => true
+      end
+  | KEncAll k vs tree => negb (json_eqb (m_enc (schema_ty k) (VStruct vs)) tree)
+  | KDecTree k creds tree r =>
+      match m_dec creds (schema_ty k) tree, r with
+      | None, None => false
+      | Some (VStruct vs), Some l =>
+          negb (forallb (fun iv => match nth_error vs (Z.to_nat (fst iv)) with
+                                   | Some v => veqb v (snd iv)
+                                   | None => false
+                                   end) l)
+      | _, _ => true
+      end
+  | CCred _ _ | CConf _ _ _ => false
   end.
 
 (* The property on the observed outputs only: what was decoded equals what was encoded. *)
@@ -98,7 +163,14 @@ Definition spec_fail (c : case) : bool :=
   | CEnum _ v _ back => negb (opt_eval_eqb back (Some v))
   | CTransports s _ back => negb (opt_pset_eqb back (Some s))
   | CNet ip ones _ back => negb (net_eqb back (NOv4 ip ones))
-  | CNet6 _ equal | CCred _ equal => negb equal
+  | CIp6 ip _ back => negb (opt_str_eqb back (Some ip))
+  (* a 16-byte IPv4-mapped network and its 4-byte form are the same network *)
+  | CNet6 ip ones _ back =>
+      negb (net_eqb back (if is4in6 ip then NOv4 (skipn 12 ip) (ones - 96) else NOv6 ip ones))
+  | CTrack c r n m valid _ back => valid && negb (track_obs_eqb (Some (XTrack c r n m)) back)
+  | KField _ _ _ valid v _ _ back => valid && negb (opt_val_eqb back (Some v))
+  | CCred _ equal => negb equal
   | CConf _ valid equal => valid && negb equal
+  | KEncAll _ _ _ | KDecTree _ _ _ _
   | CDurParse _ _ | CSizeParse _ _ | CByteSize _ _ | CToBytes _ _ | CEnumParse _ _ _ | CNetParse _ _ => false
   end.
